@@ -64,8 +64,12 @@ class VdirStore(Store):
         cp.read([os.path.join(self.path, CONFIG_FILENAME)])
 
         def save_config(cp, message):
-            with open(os.path.join(self.path, CONFIG_FILENAME), "w") as f:
+            # Write to a temporary file first, like import_one() does: a crash
+            # must not leave a half-written configuration behind.
+            path = os.path.join(self.path, CONFIG_FILENAME)
+            with open(path + ".tmp", "w") as f:
                 cp.write(f)
+            os.replace(path + ".tmp", path)
 
         self.config = FileBasedCollectionMetadata(cp, save=save_config)
 
@@ -292,8 +296,9 @@ class VdirStore(Store):
     def _write_metadata(self, name, data):
         path = os.path.join(self.path, name)
         if data is not None:
-            with open(path, "w") as f:
+            with open(path + ".tmp", "w") as f:
                 f.write(data)
+            os.replace(path + ".tmp", path)
         else:
             os.unlink(path)
 
